@@ -10,27 +10,118 @@ RULE = ("texts rendered from random term lists of the univariate grammar (1-12 t
         "the evaluation entry points (free function, eval_univariate, eval_multivariate with the binding under the variable's own "
         "name / another name / in several containers, f32 and i32 points) for every variable letter and for constants; "
         "vector lengths 0..40, 47..49, 63..65, 127..129, 255..258, 300; points next to 1, -1 and 0 at every distance "
-        "10^-1..10^-17, 10^-k down to subnormals, 10^k up to 10^300, powers of two 2^-1074..2^1023; eval_multivariate with "
+        "10^-1..10^-17, 10^-k down to subnormals, 10^k up to 10^300, powers of two 2^-1074..2^1023; coefficients next to the largest "
+        "binary64 number at points inside (-1, 1) with every power, term and the sum of |terms| below 2^1023; eval_multivariate with "
         "0..4 bindings; texts of 13..40, 64, 100, 255..257, 300 terms; exponents 41..300, the powers of two up to 65536 with "
         "long runs of leading zeros; 13..19-digit coefficient spellings; parse+eval with 25 alphabetic characters of every "
         "UTF-8 width / category and all 25 Unicode white-space characters; every parse result also through the free "
         "function on &str/&String/String, the trait, the re-export, Deref and PartialEq<Vec<f64>>; character-class table. Non-trivial = an accepted text with at least two terms, "
         "or an evaluation of a polynomial of degree >= 1; distinct = distinct request lines")
 
+# "like powers are summed": the statement fixes the SUM, not the order in which the parser adds like terms.  Every
+# coefficient that is a single literal or the sum of at most two like terms is compared bit for bit (every order of
+# summation gives the same bits there); a coefficient that is the sum of THREE OR MORE like terms is compared up to the
+# rounding of that sum - any order of rounded additions of the correctly rounded literals:
+# |impl - exact sum| <= (n+1) 2^-52 sum |d_i|  (n literals; the bound of SV.Props.C01Rounding, and inside the tolerance
+# 2u (cnt+1) sum |d_i| that the oracle below allows against the intended term list).
+
+def _leaves(s):
+    """decimal leaves of a Text.Num sum tree `(+,(+,d0e-0,a),b)`; None if the tree contains anything but + and decimals"""
+    if s.startswith("d"):
+        return [s]
+    if not s.startswith("(+,"):
+        return None
+    import oracle_util
+    op, a, b = oracle_util._split_args(s)
+    la, lb = _leaves(a), _leaves(b)
+    if la is None or lb is None:
+        return None
+    return la + lb
+
+
+def sum_close(x, y):
+    """impl coefficient token x (`f<bits>`) vs the model's sum tree y: any summation order of the rounded literals"""
+    import math
+    leaves = _leaves(y)
+    if leaves is None:
+        return False
+    nz = [v for v in (num_frac(l) for l in leaves) if v != 0]
+    if len(nz) < 3:
+        return False                      # at most two like terms: every order gives the same bits - stay exact
+    got = tok_frac(x)
+    if got is None:
+        return False
+    try:
+        if not all(math.isfinite(float(v)) for v in nz):
+            return False
+    except OverflowError:
+        return False
+    n = len(nz)
+    bound = (n + 1) * Fraction(1, 2 ** 52) * sum(abs(v) for v in nz) + (n + 1) * Fraction(1, 2 ** 1074)
+    return abs(got - sum(nz)) <= bound
+
+
 def compare(req, impl, model):
     from __main__ import default_compare
     r = req.split()
     if r[0] == "pe":
         return None  # composition of parse and eval: decided by the oracle
+    if impl.startswith("err") and model.startswith("err"):
+        return None  # the statement names no error kind (it speaks of accepted strings and of evaluation only)
     if r[0] == "parse" and model.startswith("ok") and impl.startswith("ok"):
         ti, tm = impl.split(), model.split()
         if ti[:3] != tm[:3] or len(ti) != len(tm):
             return f"variable/length differ: impl {ti[:3]} model {tm[:3]}"
         for k, (x, y) in enumerate(zip(ti[3:], tm[3:])):
-            if not same_float(tok_float(x), num_float(y)):
+            if not same_float(tok_float(x), num_float(y)) and not sum_close(x, y):
                 return f"coefficient {k}: impl {tok_float(x)!r} model {num_float(y)!r} ({y})"
         return None
-    return default_compare(req, impl, model)
+    d = default_compare(req, impl, model)
+    if d is not None and r[0] in ("eval", "evalm") and impl.startswith("ok f") and model.startswith("ok f"):
+        # "equals the sum of c_k x^k up to floating-point rounding": two evaluations agree when they differ by at most
+        # twice the bound the oracle judges each of them against (relative to sum |c_k| |x|^k - the natural scale when
+        # the sum cancels); where a power leaves [2^-900, 2^900] the order of the operations decides what over- /
+        # underflow does and only Ok / Err is compared
+        try:
+            head, _ = split_req(req)
+            if r[0] == "eval":
+                n = int(head[4]); cs = [frac_of_bits(b) for b in head[5:5 + n]]; x = frac_of_bits(head[5 + n])
+            else:
+                n = int(head[3]); cs = [frac_of_bits(b) for b in head[4:4 + n]]
+                i = 4 + n
+                if int(head[i]) != 1:
+                    return d
+                _, i = read_string(head, i + 1)
+                x = frac_of_bits(head[i])
+            a, b = tok_frac(impl.split()[1]), tok_frac(model.split()[1])
+        except Exception:
+            return d
+        if x is None or any(c is None for c in cs):
+            return d
+        tol = _value_tolerance(cs, x)
+        if tol is None:
+            return None
+        if a is not None and b is not None and abs(a - b) <= 2 * tol:
+            return None
+    return d
+
+def _value_tolerance(cs, x):
+    """the bound of `_judge_value` on |computed - sum c_k x^k|; None when a power or a term leaves [2^-900, 2^900]"""
+    n = len(cs)
+    lo, hi = Fraction(1, 2 ** 900), Fraction(2) ** 900
+    # |x|^k is monotone in k: the extreme powers decide whether every power is in range (no huge rationals formed)
+    if x != 0 and n > 1:
+        lg = abs(x).numerator.bit_length() - abs(x).denominator.bit_length()
+        if (abs(lg) + 1) * (n - 1) > 900 and abs(x) != 1:
+            top = abs(x) ** (n - 1) if (abs(lg) + 1) * (n - 1) < 4000 else None
+            if top is None or not (lo <= top <= hi):
+                return None
+    pw = [abs(x) ** k for k in range(n)]
+    terms = [abs(c) * p for c, p in zip(cs, pw)]
+    if any(t != 0 and not (lo <= t <= hi) for t in terms):
+        return None
+    scale = sum(terms)
+    return 64 * U * (n + 2) * scale + 4 * U * sum(k * t for k, t in enumerate(terms)) + Fraction(1, 2 ** 1000)
 
 def _fl(q):
     """a rational for a message (never raises: values beyond the binary64 range are shown by sign and size)"""
@@ -89,9 +180,9 @@ def oracle(req, impl):
         want = sum(c * x ** k for k, c in dense.items())
         scale = sum(absd[k] * abs(x) ** k for k in absd)
         if got is None:
-            # overflow of a term or of a power x^k beyond the binary64 range is not a misreading
+            # overflow of a term or of a power x^k beyond the binary64 range is not a misreading (see `_judge_value`)
             big = max([abs(x) ** k for k in absd] + [scale])
-            return None if big > Fraction(2) ** 1000 else "value is not finite"
+            return None if big >= Fraction(2) ** 1023 else "value is not finite although every power and the sum of |terms| are in range"
         tol = 64 * U * (len(extra) + 2) * scale + Fraction(1, 2 ** 1000)
         # x^k by repeated squaring carries a relative error of up to ~k units of roundoff
         tol += 4 * U * sum(k * absd[k] * abs(x) ** k for k in absd)
@@ -143,8 +234,15 @@ def _judge_value(cs, x, tok):
     pw = [abs(x) ** k for k in range(n)]
     scale = sum(abs(c) * p for c, p in zip(cs, pw))
     if got is None:
+        # Abstain only where a quantity the statement names is itself out of range: a power x^k, or the sum of |terms| (a
+        # bound on every term and on every partial sum of terms), at or beyond 2^1023.  Below that every order of adding
+        # the terms stays finite, so the value is an ordinary number and must come out as one (an evaluation scheme whose
+        # intermediates exceed the terms - nested multiplication with huge coefficients at |x| < 1 - fails here).
         big = max(pw + [scale])
-        return None if big > Fraction(2) ** 1000 else "value is not finite"
+        if big >= Fraction(2) ** 1023:
+            return None
+        return (f"eval at {_fl(x)} is not finite although every power, every term and the sum of |terms| "
+                f"({_fl(scale)}) are in range; sum c_k x^k is {_fl(want)}")
     tol = 64 * U * (n + 2) * scale + Fraction(1, 2 ** 1000)
     # x^k by repeated squaring carries a relative error of up to ~k units of roundoff
     tol += 4 * U * sum(k * abs(c) * p for k, (c, p) in enumerate(zip(cs, pw)))
